@@ -379,6 +379,7 @@ void Run::load() {
 
 void Run::writeBuildFile() {
   simfs::fs().writeFile(std::string(kWork) + "/build.llbuild", desc.toYaml());
+  if (getenv("VSIM_DUMP")) fprintf(stderr, "---- build.llbuild ----\n%s\n", desc.toYaml().c_str());
   descDirty = false;
 }
 
